@@ -10,7 +10,8 @@ RULE = ("every class layout of length 0..L over 3 classes (declared class count 
         "repeat, oversampling, sort-by-class, intra-class shuffle, few-shot, class-wise subset); selected sample ids compared "
         "with a per-wrapper specification (exact where documented, relational - contiguity, monotonicity, complementary "
         "partition - where rounding is undocumented); every wrapper also stacked on a reversing sub-selection of a larger root "
-        "(layouts up to length 4); constructors run under a CPU-time horizon; distinct = distinct "
+        "(layouts up to length 4); a few long layouts (17..100 samples; thorough up to 1000) for size-dependent library routines; "
+        "constructors run under a CPU-time horizon; distinct = distinct "
         "(wrapper, parameters, layout, selected ids) with a non-empty selection")
 
 PERCENTS = (None, 0, 0.0, .15, .2, 1 / 3, .5, .99, 1, 1.0)
@@ -281,6 +282,40 @@ class Checker:
             if ids is not None and ids != [full[i] for i in idxs]:
                 self.bad("SubsetWrapper", "explicit_indices_wrong", dict(indices=idxs), f"got {ids}")
 
+    def subset_long(self):
+        n = self.n
+        full = list(range(n))
+        for s_, e in ((None, n // 2), (n // 2, None), (3, n - 3), (0, 17), (16, 17)):
+            ids = self.get("SubsetWrapper", dict(start_index=s_, end_index=e))
+            if ids is not None and ids != full[(s_ or 0):(n if e is None else e)]:
+                self.bad("SubsetWrapper", "index_range_wrong", dict(start_index=s_, end_index=e), f"got {ids}", "|long")
+        for p_ in (0.5, 1 / 3):
+            a, b = self.get("SubsetWrapper", dict(end_percent=p_)), self.get("SubsetWrapper", dict(start_percent=p_))
+            if a is not None and b is not None and a + b != full:
+                self.bad("SubsetWrapper", "percent_complement_not_partition", dict(p=p_), f"{a} + {b}", "|long")
+            a, b = self.get("PercentFilterWrapper", dict(to_percent=p_)), self.get("PercentFilterWrapper", dict(from_percent=p_))
+            if a is not None and b is not None and a + b != full:
+                self.bad("PercentFilterWrapper", "complement_not_partition", dict(p=p_), f"{a} + {b}", "|long")
+        ids = self.get("SubsetWrapper", dict(indices=full[::-1]))
+        if ids is not None and ids != full[::-1]:
+            self.bad("SubsetWrapper", "explicit_indices_wrong", dict(indices="reversed"), f"got {ids}", "|long")
+
+    def classwise_subset_long(self):
+        n, lay = self.n, self.layout
+        members = [[i for i in range(n) if lay[i] == c] for c in range(3)]
+        m = min(len(x) for x in members)
+        for s_, e in ((None, m), (1, m), (None, 1), (m // 2, m)):
+            kw = dict(start_index=s_, end_index=e)
+            ids = self.get("ClasswiseSubsetWrapper", kw)
+            exp = [i for c in range(3) for i in members[c][(s_ or 0):e]]
+            if ids is not None and ids != exp:
+                self.bad("ClasswiseSubsetWrapper", "index_slice_wrong", kw, f"expected {exp} got {ids}", "|long")
+        for p_ in (0.5, 0.2):
+            a = self.get("ClasswiseSubsetWrapper", dict(end_percent=p_))
+            b = self.get("ClasswiseSubsetWrapper", dict(start_percent=p_))
+            if a is not None and b is not None and sorted(a + b) != list(range(n)):
+                self.bad("ClasswiseSubsetWrapper", "percent_complement_not_partition", dict(p=p_), f"{a} + {b}", "|long")
+
     def shuffle(self):
         n = self.n
         for seed in (None, 0, 1, 2):
@@ -450,6 +485,19 @@ def layouts(maxlen):
         yield from itertools.product(range(3), repeat=L)
 
 
+def long_layouts(tier):
+    """A few long layouts (library routines switch algorithms with the input size: e.g. sorting is insertion sort up to 16
+    elements): fixed pseudo-random class sequences, plus one with unlabeled samples for the wrappers that define them."""
+    out = []
+    for n in ((17, 33, 100) if tier == "quick" else (17, 18, 24, 33, 64, 100, 257, 1000)):
+        x, lay = 12345 + n, []
+        for _ in range(n):
+            x = (1103515245 * x + 12345) % (1 << 31)
+            lay.append((x >> 16) % 3)
+        out.append(tuple(lay))
+    return out
+
+
 def unlabeled_layouts(maxlen):
     """layouts over {-1 (unlabeled), 0, 1, 2} that contain at least one unlabeled sample"""
     for L in range(1, maxlen + 1):
@@ -484,8 +532,13 @@ def run(run):
     slays = [l for l in lays if len(l) <= slen]
     stacked_methods = tuple(m for m in Checker.ALL if m != "class_filter_sparse")
     tasks += [(slays[i:i + chunk], stacked_methods, True) for i in range(0, len(slays), chunk)]
+    longs = long_layouts(run.tier)
+    long_methods = tuple(m for m in Checker.ALL if m not in ("class_filter_sparse", "percent_filter", "subset", "classwise_subset")) \
+        + ("subset_long", "classwise_subset_long")
+    tasks += [([l], long_methods) for l in longs] + [([l], long_methods, True) for l in longs[:2]]
     tasks.reverse()
     run.pmap(task, tasks)
+    run.extra.update(long_layout_lengths=[len(l) for l in longs])
     run.extra.update(stacked_layout_len=f"0..{slen}")
     run.extra.update(unlabeled_layouts=len(ulays), unlabeled_layout_len=f"1..{ulen}")
     run.extra.update(bounds=dict(layout_len=f"0..{maxlen}", classes=3, percents=[repr(p) for p in PERCENTS],
